@@ -153,7 +153,7 @@ def _opt(values, weight_default=3):
 
 ARG_SPACE = {
     "-sp": [500, 2000, 1500],
-    "-dp": [0.5, 2.0],
+    "-dp": [0.5, 2.0, 0.35],
     "-su": [0, -100, -600, -1000],
     "-d": [300, 800, 3000, 6000],
     "-ms": [1, 500, 2000, 3000],
